@@ -10,6 +10,9 @@ B  every path of bounded depth for every configuration (exhaustive) + simulated 
    (address + age class) and Len() of both caches.
 C  seeded random histories (12 addresses, capacities 0..8, hosts flipping) recorded from the real tester are
    validated by Trace_LivenessCache with all invariants on; one corrupted trace must be rejected.
+B2 boundary resolution: the fine-tick instance (3 min ticks; queries just below, AT and just after the configured
+   lifetime, 1.01x .. 1.09x) is model-checked, ExpiryJitter > 0 must violate HitIsFresh, and every path of bounded
+   depth is replayed on the real tester under >= 64 injective address maps (IPv4 and IPv6) per behaviour.
 D  concurrent variant: 8 goroutines on one tester under -race, answers judged against the probes really made,
    bounds and clean-up judged at quiescence.
 """
@@ -52,12 +55,15 @@ def run(ctx):
     for cfg, expect in (("MC_LivenessCache_asfound.cfg", ("Bounded",)), ("MC_LivenessCache_unread.cfg", ("Bounded",)),
                         ("MC_LivenessCache_bug_evict_noop.cfg", ("Bounded", "LruInSync", "EvictedNeverServed")),
                         ("MC_LivenessCache_bug_age_flip.cfg", ("HitIsFresh",)),
-                        ("MC_LivenessCache_bug_wrong_cache.cfg", ("StoredWhereMeasured", "HitIsMeasuredVerdict"))):
+                        ("MC_LivenessCache_bug_wrong_cache.cfg", ("StoredWhereMeasured", "HitIsMeasuredVerdict")),
+                        ("MC_LivenessCache_bug_jitter.cfg", ("HitIsFresh",))):
         rb = ctx.tlc(sdir, "LivenessCache.tla", cfg, timeout=300, workers=4, count=False, expect_violation=True, check=False)
         if rb["inv"] not in expect:
             raise vlib.InfraError("broken instance %s should violate one of %s, TLC says %s\n%s" % (cfg, expect, rb["inv"], rb["out"][-1500:]))
         nonvac[cfg] = rb["inv"]
-    ctx.stage("A", invariants=INVS, nonvacuity=nonvac)
+    rb = ctx.tlc(sdir, "LivenessCache.tla", "MC_LivenessCache_boundary.cfg", timeout=600, count=False)
+    ctx.require_design_ok(rb, "LivenessCache, fine tick: queries at 0.88x / 1.01x .. 1.09x of the lifetime")
+    ctx.stage("A", invariants=INVS, nonvacuity=nonvac, boundary_instance_states=rb["distinct"])
 
     # ---------------------------------------------------------------- B
     gens = []
@@ -154,6 +160,39 @@ def run(ctx):
               consequential_mismatches_folded=folded,
               real_shapes={k: "live=%s/%s nonlive=%s/%s (%s)" % (v.get("lk"), v.get("lsize"), v.get("nk"), v.get("nsize"), v.get("tester"))
                            for k, v in sorted(shapes.items())})
+
+    # ---------------------------------------------------------------- B2 (boundary of the lifetime, many addresses)
+    gb = ctx.tlc(sdir, "Gen_LivenessCache.tla", "Gen_LivenessCache_boundary4.cfg" if thorough else "Gen_LivenessCache_boundary.cfg",
+                 timeout=3000, workers=8, count=False, heap="8g")
+    if gb["inv"]:
+        raise vlib.InfraError("boundary generator failed: %s" % gb["out"][-2000:])
+    outb = os.path.join(ctx.scratch, "boundary_out.ndjson")
+    nmaps = 96 if thorough else 64
+    resb = ctx.go_test(PKG, FILES, "liveness", "^TestVerifLivenessBoundary$",
+                       env={"VERIF_IN": gb["beh_file"], "VERIF_OUT": outb, "VERIF_MAPS": nmaps}, timeout=3000)
+    rowsb = ctx.read_results(outb)
+    sb = [x for x in rowsb if x.get("kind") == "summary"]
+    if not sb:
+        raise vlib.InfraError("boundary driver did not finish:\n" + resb["out"][-3000:])
+    sb = sb[0]
+    if sb["behaviours"] < 1000 or sb["distinctIPs"] < 64 or sb["queriesAtLifeLive"] < 64 or sb["queriesAtLifeNonLive"] < 64:
+        raise vlib.InfraError("boundary stage is vacuous: %s" % json.dumps(sb))
+    for m in [x for x in rowsb if x.get("kind") == "mismatch"]:
+        want, got = m["want"], m.get("got") or {}
+        if want.get("a") == "Query" and not want.get("cached") and got.get("cached"):
+            side = "live" if got.get("verdict") else "nonlive"
+            ctx.violation("stale:served-at-or-after-lifetime:%s" % side,
+                          "address %s (%s cache, %s): answered from the cache although the verdict was measured at least the configured "
+                          "lifetime ago (tick %s, lifetimes live %s / non-live %s) after %s; the specification re-probes"
+                          % (m.get("ip"), side, cfg_key(m["cfg"]), sb["tick"], sb["live"], sb["nonlive"], " ; ".join(m["ops"])), m)
+        else:
+            diff = diff_fields(want, got)
+            ctx.violation("boundary:%s:%s" % (want.get("a"), "+".join(diff)),
+                          "real liveness tester diverges from the fine-tick LivenessCache instance for address %s after %s (fields %s; want %s got %s)"
+                          % (m.get("ip"), " ; ".join(m["ops"]), diff, brief(want), brief(got)), m)
+    ctx.stage("B2", behaviours=sb["behaviours"], replays=sb["replays"], steps=sb["steps"], mismatches=sb["mismatches"], address_maps=sb["maps"],
+              distinct_ips=sb["distinctIPs"], queries_at_lifetime_live=sb["queriesAtLifeLive"], queries_at_lifetime_nonlive=sb["queriesAtLifeNonLive"],
+              hits_just_below=sb["queriesJustBelow"], skipped_other_admissible_shape=sb["skipped"])
 
     # ---------------------------------------------------------------- C
     trp = os.path.join(ctx.scratch, "liveness_traces.ndjson")
@@ -265,6 +304,7 @@ def run(ctx):
                        "non-trivial = contains at least one answer from the cache and one time advance; stage C traces and stage D runs counted separately")
     ctx.assumptions += [
         "time is advanced by back-dating cacheElement.cachedTime in whole ticks of 1 h; lifetimes 2h30m (live) / 1h30m (non-live) lie strictly between ticks",
+        "boundary stage: ticks of 3 min, lifetimes 2h28m30s / 1h28m30s (half a tick short of 50 / 30 ticks); a replay of one behaviour takes far less than half a tick",
         "phantomIsLive (4 TCP dials) is replaced in-package by a scripted world; the network probe itself is not under test",
         "where no capacity is configured the spec admits a map or an unbounded LRU; the driver replays the instance matching what liveness.New built",
         "the cache key is the address only (the port is fixed to 443), as in the implementation",
